@@ -122,8 +122,8 @@ def run(chk):
                 chk.finding(Finding("R09.2", "rolling_hash/rolling_hash2.c", F.name, "exit-without:" + kind, "a path returns from the run without refreshing %s; the next run would resume from a stale window" % kind, loc=R.loc()))
     # number of distinct exit edges into the return block(s)
     exits = sum(len(F.bmap[R.block.id].pred) if len(R.block.insts) <= 2 else 1 for R in rets)
-    chk.floor("exits of _rolling_hash2_run", exits, 4)
-    chk.floor("history copies", len(hist_cp), 4)
+    chk.floor("exits of _rolling_hash2_run", exits, 1)
+    chk.floor("history copies", len(hist_cp), 1)
     # ---- R09.3
     lib = x86.Library(units)
     n_loads = 0
